@@ -576,3 +576,174 @@ Proof.
   destruct (is_period c) eqn:E3; [eapply cls_disjointb_sound; [exact H3|exact E3]|].
   discriminate.
 Qed.
+
+(* ================= dictionary words ================= *)
+Lemma crosses_multichar rem l : 1 <= rem -> crosses rem l = true -> 1 < l.
+Proof. unfold crosses. intros H1 H. lia. Qed.
+
+(* a rejected candidate: no word starting inside the look-back window crosses it / ends on it with > 1 character *)
+Lemma nb_scan_false lk : forall rem skipb t d l,
+  nb_scan lk rem skipb t = false -> d < rem -> d < length t -> skipb <= blen (firstn d t) ->
+  In l (lk (skipn d t)) -> crosses (rem - d) l = false.
+Proof.
+  induction rem as [|rem IH]; intros skipb t d l H Hd Hdt Hsk Hin; [lia|].
+  destruct t as [|c r]; [cbn in Hdt; lia|]. cbn [nb_scan] in H.
+  destruct (match skipb with 0 => existsb (crosses (S rem)) (lk (c :: r)) | S _ => false end) eqn:E; [discriminate|].
+  destruct d as [|d].
+  - cbn [firstn blen] in Hsk. assert (skipb = 0) by lia. subst skipb. cbn [skipn] in Hin.
+    rewrite Nat.sub_0_r. destruct (crosses (S rem) l) eqn:Ec; [|reflexivity].
+    assert (existsb (crosses (S rem)) (lk (c :: r)) = true) by (apply existsb_exists; exists l; auto). congruence.
+  - cbn [skipn] in Hin. cbn [firstn blen] in Hsk. cbn [length] in Hdt.
+    replace (S rem - S d) with (rem - d) by lia.
+    eapply IH; [exact H|lia|lia| |exact Hin]. lia.
+Qed.
+
+Lemma has_non_break_word_false lk input k j l :
+  has_non_break_word lk input k = false -> k <= length input ->
+  word_across lk input k j l -> in_lookback input k j -> False.
+Proof.
+  unfold has_non_break_word, word_across, in_lookback. intros H Hk [Hj [Hin Hc]] Hlb.
+  pose proof (nb_scan_false lk _ _ _ j l H Hj ltac:(lia) Hlb Hin) as Hf. unfold crosses in Hf. lia.
+Qed.
+
+(* a veto always comes from a word of more than one character *)
+Lemma nb_scan_true lk : forall rem skipb t, nb_scan lk rem skipb t = true ->
+  exists d l, d < rem /\ d < length t /\ In l (lk (skipn d t)) /\ crosses (rem - d) l = true /\ 1 < l.
+Proof.
+  induction rem as [|rem IH]; intros skipb t H; [discriminate|].
+  destruct t as [|c r]; [discriminate|]. cbn [nb_scan] in H.
+  destruct (match skipb with 0 => existsb (crosses (S rem)) (lk (c :: r)) | S _ => false end) eqn:E.
+  - destruct skipb; [|discriminate]. rewrite existsb_exists in E. destruct E as [l [A B]].
+    exists 0, l. cbn [skipn length]. rewrite Nat.sub_0_r. repeat split; try lia; try assumption.
+    eapply crosses_multichar; [|exact B]. lia.
+  - destruct (IH _ _ H) as [d [l [A [B [C [D E']]]]]]. exists (S d), l. cbn [skipn length].
+    replace (S rem - S d) with (rem - d) by lia. repeat split; try lia; assumption.
+Qed.
+
+Lemma has_non_break_word_true lk input k : has_non_break_word lk input k = true ->
+  exists j l, word_across lk input k j l /\ 1 < l.
+Proof.
+  unfold has_non_break_word. intros H. destruct (nb_scan_true _ _ _ _ H) as [d [l [A [B [C [D E]]]]]].
+  exists d, l. unfold word_across. unfold crosses in D. repeat split; try assumption. lia.
+Qed.
+
+(* only words of more than one character matter *)
+Lemma nb_scan_agree lk1 lk2 : agree_multichar lk1 lk2 -> forall rem skipb t, nb_scan lk1 rem skipb t = nb_scan lk2 rem skipb t.
+Proof.
+  intros Hag. induction rem as [|rem IH]; intros skipb t; [reflexivity|].
+  destruct t as [|c r]; [reflexivity|]. cbn [nb_scan]. rewrite IH.
+  assert (Hex : existsb (crosses (S rem)) (lk1 (c :: r)) = existsb (crosses (S rem)) (lk2 (c :: r))).
+  { apply eq_true_iff_eq. rewrite !existsb_exists. split; intros [l [A B]]; exists l; (split; [|assumption]);
+      apply (Hag (c :: r) l); try assumption; (eapply crosses_multichar; [|exact B]); lia. }
+  destruct skipb; [rewrite Hex|]; reflexivity.
+Qed.
+
+Lemma scan_find_ext {B} (f g : nat -> option B) : (forall e, f e = g e) ->
+  forall rest skip prev i, scan_find f skip prev i rest = scan_find g skip prev i rest.
+Proof.
+  intros Hfg. induction rest as [|c tl IH]; intros skip prev i; [reflexivity|].
+  cbn [scan_find]. destruct skip; [|apply IH]. destruct (breaker_len prev (c :: tl)) as [[|m]|]; try apply IH.
+  rewrite Hfg. destruct (g (i + S m)); [reflexivity|apply IH].
+Qed.
+
+Lemma get_eos_agree lk1 lk2 limit input : agree_multichar lk1 lk2 ->
+  get_eos limit (Some lk1) input = get_eos limit (Some lk2) input.
+Proof.
+  intros Hag. unfold get_eos. destruct input as [|c0 r0]; [reflexivity|].
+  rewrite (scan_find_ext (accept (Some lk1) (c0 :: r0) (firstn limit (c0 :: r0))) (accept (Some lk2) (c0 :: r0) (firstn limit (c0 :: r0)))); [reflexivity|].
+  intros e. unfold accept, has_non_break_word. rewrite (nb_scan_agree lk1 lk2 Hag). reflexivity.
+Qed.
+
+Lemma nb_scan_single lk : (forall t l, In l (lk t) -> l <= 1) -> forall rem skipb t, nb_scan lk rem skipb t = false.
+Proof.
+  intros H rem skipb t. destruct (nb_scan lk rem skipb t) eqn:E; [|reflexivity].
+  destruct (nb_scan_true _ _ _ _ E) as [d [l [_ [_ [C [_ D]]]]]]. specialize (H _ _ C). lia.
+Qed.
+
+Lemma get_eos_single lk limit input : (forall t l, In l (lk t) -> l <= 1) ->
+  get_eos limit (Some lk) input = get_eos limit None input.
+Proof.
+  intros H. unfold get_eos. destruct input as [|c0 r0]; [reflexivity|].
+  rewrite (scan_find_ext (accept (Some lk) (c0 :: r0) (firstn limit (c0 :: r0))) (accept None (c0 :: r0) (firstn limit (c0 :: r0)))); [reflexivity|].
+  intros e. unfold accept, has_non_break_word. rewrite (nb_scan_single lk H). reflexivity.
+Qed.
+
+Lemma get_eos_no_word limit lk input : input <> [] -> 1 <= limit -> (0 <= get_eos limit (Some lk) input)%Z ->
+  exists k, 1 <= k /\ k <= length input /\ get_eos limit (Some lk) input = Z.of_nat (blen (firstn k input)) /\
+            forall j l, word_across lk input k j l -> in_lookback input k j -> False.
+Proof.
+  intros Hne Hl Hpos. destruct (get_eos_positive limit (Some lk) input Hne Hl Hpos) as [e [eos [l1 [l2 [A1 [A2 [A3 [A4 [A5 [A6 [A7 A8]]]]]]]]]]].
+  set (s := firstn limit input) in *.
+  assert (Hin : In e (candidates s)) by (rewrite A1; apply in_or_app; right; left; reflexivity).
+  destruct (candidates_bounds _ _ Hin) as [B1 B2].
+  destruct (accept_spec _ _ _ _ _ B2 A3) as [C1 [C2 [C3 [C4 [C5 [C6 C7]]]]]].
+  assert (Hk : eos <= length input) by (unfold s in A6; rewrite firstn_length in A6; lia).
+  exists eos. split; [lia|]. split; [assumption|]. split; [assumption|].
+  intros j l Hw Hlb. eapply has_non_break_word_false; [apply (C7 lk eq_refl)|assumption|exact Hw|exact Hlb].
+Qed.
+
+(* ================= the converse, inside the window ================= *)
+(* an unvetoed candidate in the window makes get_eos answer positive, and the answer is the first such candidate *)
+Lemma get_eos_first_accepted limit ck input l1 e l2 eos : input <> [] -> 1 <= limit ->
+  let s := firstn limit input in
+  candidates s = l1 ++ e :: l2 -> (forall y, In y l1 -> accept ck input s y = None) -> accept ck input s e = Some eos ->
+  get_eos limit ck input = Z.of_nat (blen (firstn eos input)) /\ 1 <= eos.
+Proof.
+  intros Hne Hl s Hc Hl1 He.
+  assert (Hfs : first_some (accept ck input s) (candidates s) = Some eos).
+  { rewrite Hc. clear Hc. induction l1 as [|y l1 IH]; cbn [app first_some].
+    - rewrite He. reflexivity.
+    - rewrite (Hl1 y (or_introl eq_refl)). apply IH. intros z Hz. apply Hl1. right. assumption. }
+  pose proof (get_eos_cases limit ck input Hne Hl) as Hcases. cbv zeta in Hcases. fold s in Hcases.
+  destruct Hcases as [[H _]|[eos' [E [H [H1 H2]]]]]; [congruence|].
+  assert (eos' = eos) by congruence. subst. auto.
+Qed.
+
+Lemma get_eos_negative_all_vetoed limit ck input : input <> [] -> 1 <= limit -> (get_eos limit ck input < 0)%Z ->
+  forall e, In e (candidates (firstn limit input)) -> accept ck input (firstn limit input) e = None.
+Proof.
+  intros Hne Hl Hneg. destruct (get_eos_cases limit ck input Hne Hl) as [[H _]|[eos [_ [H _]]]]; [|lia].
+  apply first_some_None. assumption.
+Qed.
+
+(* every breaker match in the window is reported by find_iter, or starts inside an earlier reported match that ends
+   after its start (the regex engine resumes the search at the end of the previous match) *)
+Lemma scan_complete : forall rest skip prev (pre : text) p pv m,
+  breaker_len pv (skipn p rest) = Some (S m) -> p < length rest ->
+  pv = (match p with 0 => prev | S q => nth_error rest q end) ->
+  skip <= p ->
+  exists e, In e (scan skip prev (length pre) rest) /\ length pre + p < e /\
+            (e = length pre + p + S m \/
+             exists q pv' m', q < p /\ breaker_len pv' (skipn q rest) = Some m' /\ e = length pre + q + m').
+Proof.
+  induction rest as [|c tl IH]; intros skip prev pre p pv m Hb Hp Hpv Hsk; [cbn in Hp; lia|].
+  cbn [scan].
+  assert (Hrec : forall sk, sk <= p - 1 -> 1 <= p ->
+     exists e, In e (scan sk (Some c) (S (length pre)) tl) /\ length pre + p < e /\
+            (e = length pre + p + S m \/
+             exists q pv' m', q < p /\ breaker_len pv' (skipn q (c :: tl)) = Some m' /\ e = length pre + q + m')).
+  { intros sk Hsk' Hp1. destruct p as [|q]; [lia|]. cbn [skipn] in Hb. cbn [length] in Hp.
+    replace (S (length pre)) with (length (pre ++ [c])) by (rewrite app_length; cbn; lia).
+    destruct (IH sk (Some c) (pre ++ [c]) q pv m Hb ltac:(lia)) as [e [A [B C]]].
+    - subst pv. destruct q; reflexivity.
+    - lia.
+    - exists e. rewrite app_length in B, C. cbn [length] in B, C. split; [assumption|]. split; [lia|].
+      destruct C as [C|[q' [pv' [m' [C1 [C2 C3]]]]]]; [left; lia|].
+      right. exists (S q'), pv', m'. cbn [skipn]. split; [lia|]. split; [assumption|lia]. }
+  destruct skip as [|k].
+  - destruct (breaker_len prev (c :: tl)) as [[|m0]|] eqn:E.
+    + destruct p as [|q].
+      * cbn [skipn] in Hb. subst pv. congruence.
+      * destruct (Hrec 0 ltac:(lia) ltac:(lia)) as [e [A B]]. exists e. auto.
+    + destruct p as [|q].
+      * cbn [skipn] in Hb. subst pv. assert (m0 = m) by congruence. subst.
+        exists (length pre + S m). split; [left; reflexivity|]. split; [lia|]. left. lia.
+      * destruct (le_lt_dec m0 q) as [Hle|Hgt].
+        -- destruct (Hrec m0 ltac:(lia) ltac:(lia)) as [e [A B]]. exists e. split; [right; assumption|assumption].
+        -- exists (length pre + S m0). split; [left; reflexivity|]. split; [lia|].
+           right. exists 0, prev, (S m0). cbn [skipn]. split; [lia|]. split; [assumption|lia].
+    + destruct p as [|q].
+      * cbn [skipn] in Hb. subst pv. congruence.
+      * destruct (Hrec 0 ltac:(lia) ltac:(lia)) as [e [A B]]. exists e. auto.
+  - destruct p as [|q]; [lia|]. destruct (Hrec k ltac:(lia) ltac:(lia)) as [e [A B]]. exists e. auto.
+Qed.
